@@ -452,6 +452,9 @@ theorem hearQuery_history (h : History) (pkts : List HeardPacket) (now : Int) :
 /-- the operations of one instance that read or write its question history: any browser's `generate_service_query`, any lookup's
 `_generate_request_query`, `async_response` on an assembled query, the clean-up tick.  Caches, clocks, types and names are arbitrary
 per operation (several browsers and lookups share the one history). -/
+/- The list handed to `runOps` is the order of **execution**.  `Op.hear pkts now` is the execution of `async_response` on an assembled
+query; `now` is the time it is stamped with (`msgs[-1].now`, the arrival of its last packet).  For a query that ends with a non-TC packet
+the two coincide; a truncated query whose train is incomplete is held back by the listener and executes 400–500 ms after that arrival. -/
 inductive Op where
   | browse (cache : List Rec) (now : Int) (qu : Bool) (types : List String)
   | lookup (cache : List Rec) (now : Int) (qu : Bool) (name server : String)
@@ -495,14 +498,15 @@ theorem op_sightings_time {h : History} {op : Op} {s : Sighting} (hs : s ∈ op.
   | tick now => simp [Op.sightings] at hs
 
 /-- **the history of a run is the history of its sightings**, as far as any decision at a time `now` not before the run's clean-up
-ticks goes -/
-theorem runOps_futEqAt (now : Int) : ∀ (ops : List Op) (h h' : History), History.Keyed lower h → (∀ op ∈ ops, op.time ≤ now) →
+ticks goes.  The list is the order in which the operations *execute*; nothing is assumed about the times they carry except that the
+ticks lie in the past of `now` (a heard query that the listener deferred executes later than the time it is stamped with). -/
+theorem runOps_futEqAt (now : Int) : ∀ (ops : List Op) (h h' : History), History.Keyed lower h → (∀ t, Op.tick t ∈ ops → t ≤ now) →
     FutEqAt lower now h h' → FutEqAt lower now (runOps lower h ops).1 (h'.seeAll lower (runOps lower h ops).2)
   | [], _, _, _, _, he => he
   | op :: rest, h, h', hk, ht, he => by
     simp only [runOps]
     rw [seeAll_append]
-    have htr : ∀ op' ∈ rest, op'.time ≤ now := fun o ho => ht o (List.mem_cons_of_mem _ ho)
+    have htr : ∀ t, Op.tick t ∈ rest → t ≤ now := fun t ho => ht t (List.mem_cons_of_mem _ ho)
     cases op with
     | browse cache t qu types =>
       have hh : (Op.run lower h (.browse cache t qu types)).2 = h.seeAll lower (Op.sightings lower h (.browse cache t qu types)) :=
@@ -524,7 +528,7 @@ theorem runOps_futEqAt (now : Int) : ∀ (ops : List Op) (h h' : History), Histo
         simp only [Op.run, History.cleanupTick, cleanup_expire_time_eq]
       rw [hh]
       simp only [Op.sightings, History.seeAll, List.foldl_nil]
-      have ht' : t ≤ now := ht (.tick t) (by simp)
+      have ht' : t ≤ now := ht t (by simp)
       exact runOps_futEqAt now rest _ _ (keyed_expire lower hk t) htr (futEqAt_expire lower hk ht' he)
 
 /-- the sightings of a chronological run are chronological -/
